@@ -258,7 +258,9 @@ func runC19(x *core.Ctx) {
 				})
 		}
 	}
-	// (2) every state of the setter search
+	// (2) every state of the setter search, and every string setter called
+	// with every special and mined content
+	runC12Contents(x, c19Visit)
 	runE2Setters(x, c19Visit)
 	// (3) every packet accepted from the raw input families
 	maxBody := 4
@@ -369,6 +371,8 @@ func replayC19(c core.Case) *core.Finding {
 	case "c19.tf":
 		b := paramInt(c.Params, "b")
 		return c19Finding(fmt.Sprintf("TopicFilter opts %d", b), mq.NewTopicFilter("a", mq.Opt(b)), 8)
+	case "c12.content":
+		return replayContent(c19Visit, c)
 	case "e2.setters":
 		return replayE2(c19Visit, paramStr(c.Params, "type"), paramStr(c.Params, "init"), c.Choices)
 	}
